@@ -279,6 +279,48 @@ def h_type_history(sx):
         factory.reset()
 
 
+def h_converter_fault(sx):
+    """A definition whose pattern matches but whose type converter rejects the value keeps the step (it errors); a later
+    or generic definition that also matches the text does not take over."""
+    from behave.step_registry import StepRegistry
+    from behave.matchers import use_step_matcher, register_type, get_step_matcher_factory, MatchWithError
+    from behave.model import Step
+    import parse
+    factory = get_step_matcher_factory()
+    factory.reset()
+    try:
+        kind = sx.choice("matcher", ["parse", "cfparse"])
+        kind = kind if isinstance(kind, str) else kind.concretize()
+        st2 = sx.choice("second_step_type", ["given", "step"])
+        st2 = st2 if isinstance(st2, str) else st2.concretize()
+        value = sx.choice("value", ["5", "12", "99"])
+        value = value if isinstance(value, str) else value.concretize()
+
+        @parse.with_pattern(r"\d+")
+        def small(text):
+            n = int(text)
+            if n >= 10:
+                raise ValueError("%d is not small" % n)
+            return n
+        use_step_matcher(kind)
+        register_type(Small=small)
+        reg = StepRegistry()
+        first = lambda context, amount: None
+        later = lambda context, anything: None
+        reg.add_step_definition("given", u"{amount:Small} items in the basket", first)
+        reg.add_step_definition(st2, u"{anything} in the basket", later)
+        m = reg.find_match(Step("x.feature", 1, "Given", "given", u"%s items in the basket" % value))
+        det = {"matcher": kind, "second_step_type": st2, "value": value, "match": repr(m)}
+        if int(value) >= 10:
+            sx.check(isinstance(m, MatchWithError) and m.func is first, "C11.conversion-error-stays-with-the-first-matching-definition", detail=det)
+        else:
+            sx.check(m is not None and not isinstance(m, MatchWithError) and m.func is first,
+                     "C11.bound-to-first-matching-definition(type-before-generic,earlier-first)", detail=det)
+        return {"value": value, "kind": kind, "error": isinstance(m, MatchWithError)}
+    finally:
+        factory.reset()
+
+
 def h_module_reset(sx):
     """load_step_modules: a matcher switch inside one step module does not leak into the next one."""
     import os
@@ -352,6 +394,8 @@ def jobs(tier, seed):
                       reach=["C11.bound-to-first-matching-definition(type-before-generic,earlier-first)",
                              "C11.ambiguity-raised-exactly-when-existing-definition-matches"],
                       min_paths=50, cost=5000, validate=2, closure=False, max_paths=600000))
+    js.append(Job("converter-fault", "props.c11:h_converter_fault", {}, reach=["C11.conversion-error-stays-with-the-first-matching-definition"],
+                  min_paths=8, cost=5, validate="all", closure=False))
     js.append(Job("type-history", "props.c11:h_type_history", {}, reach=["C11.converted-by-the-type-declared-at-definition"], min_paths=20, cost=5,
                   validate=40, closure=False))
     js.append(Job("module-reset", "props.c11:h_module_reset", {}, reach=["C11.matcher-switch-does-not-leak-into-next-step-module"], min_paths=3, cost=5,
